@@ -380,7 +380,7 @@ Section Endpoint.
     assert (Hu : is_untracked ec = false) by (unfold is_untracked; rewrite Ht; reflexivity).
     assert (Hn : is_normal ec = true) by (unfold is_normal; rewrite Ht; reflexivity).
     assert (Hfw : is_forward ec = false) by (unfold is_forward; rewrite Ht; reflexivity).
-    unfold endpoint_rules, expected. rewrite Ht. cbn [run].
+    unfold endpoint_rules, expected. rewrite Ht, Hu. cbn [run negb andb].
     destruct (ec_admin_up ec); cbn [negb].
     2:{ rewrite go_deny by reflexivity. cbn [ok_result]. rewrite deny_final_fin, packet_eqb_unmarked_of_unmark; reflexivity. }
     rewrite conntrack_run by exact Hu.
@@ -422,7 +422,7 @@ Section Endpoint.
     assert (Hu : is_untracked ec = false) by (unfold is_untracked; rewrite Ht; reflexivity).
     assert (Hn : is_normal ec = false) by (unfold is_normal; rewrite Ht; reflexivity).
     assert (Hfw : is_forward ec = true) by (unfold is_forward; rewrite Ht; reflexivity).
-    unfold endpoint_rules, expected. rewrite Ht. cbn [run].
+    unfold endpoint_rules, expected. rewrite Ht, Hu. cbn [run negb andb].
     destruct (ec_admin_up ec); cbn [negb].
     2:{ rewrite go_deny by reflexivity. cbn [ok_result]. rewrite deny_final_fin, packet_eqb_unmarked_of_unmark; reflexivity. }
     rewrite conntrack_run by exact Hu.
